@@ -264,6 +264,9 @@ def gen_cases(ctx, driver):
     #          same token and another body
     for c in stale_entry_cases(rng, thorough):
         cases.append(c)
+    # ---- 3e. transfers abandoned on layers with transfer timeout 0: nothing may be held after the next sweep (clause `leak`)
+    for c in zero_timeout_cases(rng, thorough):
+        cases.append(c)
     # ---- 4. random histories: several tokens, random faults, injected stray / foreign blocks, ETag flips, expiry
     nrand = 40000 if thorough else 3000
     for _ in range(nrand):
@@ -426,6 +429,86 @@ def stale_entry_cases(rng, thorough):
             lines += ["net deliver"] * (2 * (ln // u + 4) + 6)
             out.append(Case(lines + ["end"], {"token-reuse-sender", "resend-while-held", "style-write", "dir-up"}, True))
     return out
+
+
+def zero_timeout_cases(rng, thorough):
+    """transfers abandoned half-way on layers whose transfer timeout is 0 (and, as a control, 3 s): at the next housekeeping
+    tick — and certainly an hour later — nothing may be held any more (judge clause `leak`, evaluated at `end`)"""
+    out = []
+    cfgs = [(0, 80, 0, 80), (1, 96, 0, 80), (2, 128, 3, 192)]
+    if not thorough:
+        cfgs = cfgs[:2]
+    for (sa, ma, sb, mb) in cfgs:
+        u = size(min(sa, sb))
+        for exp in (0, 3000):
+            for k in (1, 2, 3):
+                tok = rng.randrange(1, 1 << 40)
+                ln = 4 * max(buflen(sa, ma), buflen(sb, mb)) + 3
+                tail = ["net drop"] * 4 + ["sleep 60000", "tick A", "tick B"]
+                # upload abandoned after k blocks (the reassembly entry of B)
+                lines = [cfg_line(sa, ma, sb, mb, exp, exp)] + xfer_lines(tok, PUT, ln, rng.randrange(200), CHANGED, 3, 1, tmo=100)
+                out.append(Case(lines + ["net deliver"] * (2 * k - 1) + tail + ["end"], {"zero-timeout" if exp == 0 else "abandoned", "abandoned-upload", "time"}, True))
+                # download abandoned after k blocks (the cached response of B, the reassembly entry of A)
+                lines = [cfg_line(sa, ma, sb, mb, exp, exp)] + xfer_lines(tok, GET, 0, 0, CONTENT, ln, rng.randrange(200), tmo=100)
+                out.append(Case(lines + ["net deliver"] * (2 * k) + tail + ["end"], {"zero-timeout" if exp == 0 else "abandoned", "abandoned-download", "time"}, True))
+                # one-way write abandoned (the cached message of A, the reassembly entry of B)
+                lines = [cfg_line(sa, ma, sb, mb, exp, exp), "reg A %d %d %d %d - %s" % (tok, POST, ln, rng.randrange(200), REQ_OTHER),
+                         "reg B %d %d 0 0 - -" % (tok, CHANGED), "write A %d" % tok]
+                out.append(Case(lines + ["net deliver"] * (2 * k - 1) + tail + ["end"], {"zero-timeout" if exp == 0 else "abandoned", "abandoned-write", "time"}, True))
+            # and a transfer that simply completes with timeout 0
+            tok = rng.randrange(1, 1 << 40)
+            ln = 2 * u + 1
+            lines = [cfg_line(sa, ma, sb, mb, exp, exp)] + xfer_lines(tok, POST, ln, rng.randrange(200), CHANGED, ln, rng.randrange(200), tmo=20000)
+            out.append(Case(lines + ["net deliver"] * 24 + ["end"], {"zero-timeout" if exp == 0 else "abandoned", "dir-both"}, True))
+    return out
+
+
+def judged_cases(ctx, test_exe, driver, cases, prop, clause, tag):
+    """runs histories on the real layer and reports what the C04 judge says about them (for sub-checks other properties call)"""
+    res = run_lines(ctx, {"test": test_exe, "driver": driver}, cases, tag=tag)
+    if res is None:
+        return
+    lines, owner, impl, model, judge = res
+    first_of, bad = {}, {}
+    for i, ci in enumerate(owner):
+        first_of.setdefault(ci, i)
+    for i, (l, o) in enumerate(zip(lines, impl)):
+        ci = owner[i]
+        if ci in bad:
+            continue
+        if o.startswith("panic") or " ; panic " in o:
+            bad[ci] = (i - first_of[ci], "violates crash: `%s` -> %s" % (l, o[:300]))
+        elif judge is not None and judge[i] != "ok":
+            bad[ci] = (i - first_of[ci], "%s: observed `%s`: %s" % (l, o[:300], judge[i]))
+    for ci, (k, what) in list(bad.items())[:3]:
+        c = cases[ci]
+        ctx.violations.append(common.Violation(clause, "%s:blockwise:%s" % (prop, sig_of(what)[4:]), what[:600],
+                                               {"input": c.lines[:k + 1] + ([] if c.lines[k] == "end" else ["end"]), "kinds": sorted(c.kinds),
+                                                "replay_with": "bin/check C04 --replay <this file>"}))
+    ctx.count("blockwise-histories-" + tag, len(cases))
+
+
+def buffers_check(ctx, test_exe, driver, prop, clause):
+    """Sub-check for C13 ("no per-exchange state outlives the exchange"): block-wise transfers abandoned half-way, transfer
+    timeout 0 and 3 s, swept a minute later; at the end nothing may be held (C04 judge, clause `leak`).
+    test_exe = common.build_test(ctx, "c04"), driver = common.build_driver(ctx, "C04")."""
+    import random as _r
+    judged_cases(ctx, test_exe, driver, zero_timeout_cases(_r.Random(ctx.seed), ctx.tier == "thorough"), prop, clause, "buffers")
+
+
+def pool_check(ctx, test_exe, prop, clause, trace_path=None):
+    """Sub-check for C12 ("a pooled message has one owner at a time"): harness/c04 TestC04Pool — the layer over a tracking
+    LIFO pool while two goroutines meet in getCachedReceivedMessage / the sweep runs during an append.  Reports double
+    releases, messages handed to the handler after their release, and bodies that are not the supplied ones; the lifecycle
+    trace (`scenario …`, `acq id`, `rel id`, `dlv id`) is written to trace_path (default work/<prop>/c04pool.trace).
+    test_exe = common.build_test(ctx, "c04")."""
+    trace_path = trace_path or os.path.join(ctx.work, "c04pool.trace")
+    os.environ["VERIF_TRACE"] = trace_path
+    try:
+        glue_level(ctx, {"test": test_exe}, "TestC04Pool", "pool", prop=prop, clause=clause)
+    finally:
+        os.environ.pop("VERIF_TRACE", None)
+    return trace_path
 
 
 def etag_discipline_ok(lines):
@@ -703,6 +786,7 @@ def explore(ctx, art):
     glue_level(ctx, art, "TestC04TcpServer", "tcpsrv")
     glue_level(ctx, art, "TestC04UdpDial", "udpdial")
     glue_level(ctx, art, "TestC04Discover", "discover")
+    glue_level(ctx, art, "TestC04Pool", "pool")
     if ctx.tier == "thorough":
         conn_level(ctx, art)
         with common.Lock():
@@ -758,7 +842,7 @@ def guard_level(ctx, art, exe=None, realtime=False, tag="guard"):
     ctx.cov[tag + "_scenarios"] = n
 
 
-def glue_level(ctx, art, test, tag):
+def glue_level(ctx, art, test, tag, prop="C04", clause="exact"):
     """the same property on connections the library's own entry points create through options (harness/c04/glue_test.go)"""
     import subprocess
     outp = os.path.join(ctx.work, tag + ".out")
@@ -786,7 +870,7 @@ def glue_level(ctx, art, test, tag):
             if nbad <= 2:
                 scen = " ".join(f[1:-1])
                 ctx.violations.append(common.Violation(
-                    "exact", "C04:%s: %s" % (tag, re.sub(r"\d+", "N", res)[:90]),
+                    clause, "%s:%s: %s" % (prop, tag, re.sub(r"\d+", "N", res)[:90]),
                     "%s (%s): %s" % (test, scen, res),
                     {"input": ["go test -run %s (harness/c04/glue_test.go)" % test], "scenario": scen, "test": test, "seed": ctx.seed,
                      "observed": l, "expected": "every application is handed exactly what its own peer supplied, once, or the exchange fails"}))
